@@ -56,8 +56,13 @@ def set_op(op, A, B):
 
 
 def lattice_pair(rng):
-    mode = rng.choice(['random', 'random', 'nested', 'share_edge', 'share_corner', 'equal', 'disjoint', 'cross'])
-    if mode == 'random':
+    mode = rng.choice(['random', 'random', 'big', 'big', 'nested', 'share_edge', 'share_corner', 'equal', 'disjoint', 'cross'])
+    if mode == 'big':
+        # larger, strongly concave shapes (several local extreme corners: the chainer has to join open chains)
+        ca = G.polyomino(rng, ncells=rng.randint(10, 22), w=7, h=7); cb = G.polyomino(rng, ncells=rng.randint(10, 22), w=7, h=7)
+        dx, dy = rng.randint(-3, 3), rng.randint(-3, 3)
+        cb = {(i + dx, j + dy) for i, j in cb}
+    elif mode == 'random':
         ca = G.polyomino(rng, w=5, h=5); cb = G.polyomino(rng, w=5, h=5)
         dx, dy = rng.randint(-2, 2), rng.randint(-2, 2)
         cb = {(i + dx, j + dy) for i, j in cb}
@@ -94,8 +99,64 @@ def fam_lattice(ctx, rng, collect=None):
     if lp is None:
         return
     mode, ca, cb, la, lb = lp
+    judge_lattice(ctx, mode, ca, cb, la, lb, rng.choice(OPS + ['split']), collect)
+
+
+def cells_of_loop(loop):
+    """cell set of a rectilinear lattice loop (exact, even-odd at centres)"""
+    xs = [int(p[0]) for p in loop]; ys = [int(p[1]) for p in loop]
+    return cells_of_result([poly(loop)], min(xs) - 1, min(ys) - 1, max(xs) + 1, max(ys) + 1)
+
+
+# fixed corpus, run first on every run: strongly concave pairs whose results are assembled from several open chains
+def _comb(x0, y0, teeth, up=True, tw=1, gap=1, th=3):
+    pts = [(x0, y0), (x0 + teeth * (tw + gap) - gap, y0)] if up else []
+    w = teeth * (tw + gap) - gap
+    if up:
+        loop = [(x0, y0), (x0 + w, y0)]
+        x = x0 + w
+        for t in range(teeth):
+            loop += [(x, y0 + th), (x - tw, y0 + th)]
+            x -= tw
+            if t < teeth - 1:
+                loop += [(x, y0 + 1), (x - gap, y0 + 1)]
+                x -= gap
+        return [(float(a), float(b)) for a, b in loop]
+    loop = [(x0, y0), (x0 + w, y0)][::-1]
+    x = x0
+    out = [(x0 + w, y0), (x0, y0)]
+    for t in range(teeth):
+        out += [(x, y0 - th), (x + tw, y0 - th)]
+        x += tw
+        if t < teeth - 1:
+            out += [(x, y0 - 1), (x + gap, y0 - 1)]
+            x += gap
+    return [(float(a), float(b)) for a, b in out]
+
+
+CORPUS = [
+    ([(5, 0), (5, 2), (6, 2), (6, 1), (9, 1), (9, 0)], [(8, 7), (3, 7), (3, 2), (8, 2), (8, 3), (4, 3), (4, 6), (8, 6)]),
+    (_comb(0, 0, 4), [(-1.0, 2.0), (8.0, 2.0), (8.0, 5.0), (-1.0, 5.0)]),
+    (_comb(0, 0, 3), _comb(0, 4, 3, up=False)),
+    (_comb(0, 0, 4), _comb(1, 5, 3, up=False)),
+    ([(0, 0), (7, 0), (7, 7), (0, 7), (0, 6), (6, 6), (6, 1), (1, 1), (1, 5), (0, 5)], [(2, 2), (9, 2), (9, 4), (3, 4), (3, 8), (2, 8)]),
+]
+
+
+def fam_corpus(ctx):
+    for la, lb in CORPUS:
+        la = [(float(x), float(y)) for x, y in la]; lb = [(float(x), float(y)) for x, y in lb]
+        fa, fb = [X.fpt(p) for p in la], [X.fpt(p) for p in lb]
+        if not (X.is_simple(fa) and X.is_simple(fb)):
+            continue
+        ca, cb = cells_of_loop(la), cells_of_loop(lb)
+        for op in OPS + ['split']:
+            for ra, rb in ((la, lb), (la[::-1], lb), (lb, la)):
+                judge_lattice(ctx, 'corpus', ca if ra is not lb else cb, cb if ra is not lb else ca, ra, rb, op, None)
+
+
+def judge_lattice(ctx, mode, ca, cb, la, lb, op, collect=None):
     a, b = poly(la), poly(lb)
-    op = rng.choice(OPS + ['split'])
     desc = {'a': la, 'b': lb, 'op': op, 'relation': mode}
     box = bbox_cells(ca, cb)
     ctx.count('lattice.' + op, key=(mode, len(ca), len(cb)), sample=desc, nontrivial=mode != 'disjoint')
@@ -171,8 +232,8 @@ def evenodd_area(polys):
 
 def fam_general(ctx, rng):
     R = rng.choice([5.0, 50.0])
-    la = G.star_polygon(rng, n=rng.randint(3, 12), R=R, center=(0.0, 0.0), bits=20)
-    lb = G.star_polygon(rng, n=rng.randint(3, 12), R=R, center=(G.dy(rng.uniform(-R, R)), G.dy(rng.uniform(-R, R))), bits=20)
+    la = G.star_polygon(rng, n=rng.randint(3, 16), R=R, center=(0.0, 0.0), bits=20)
+    lb = G.star_polygon(rng, n=rng.randint(3, 16), R=R, center=(G.dy(rng.uniform(-R, R)), G.dy(rng.uniform(-R, R))), bits=20)
     if rng.random() < 0.5: la = la[::-1]
     if rng.random() < 0.5: lb = lb[::-1]
     fa, fb = [X.fpt(p) for p in la], [X.fpt(p) for p in lb]
@@ -226,10 +287,11 @@ def fam_general(ctx, rng):
                     float(au), float(ai), float(X.area(fa)), float(X.area(fb))), desc)
 
 
-FAMILIES = [(fam_lattice, 150), (fam_lattice_all, 40), (fam_general, 80)]
+FAMILIES = [(fam_lattice, 220), (fam_lattice_all, 50), (fam_general, 140)]
 
 
 def explore(ctx):
+    fam_corpus(ctx)
     for f, n in FAMILIES:
         for _ in range(ctx.n(n, n * 10)):
             f(ctx, ctx.rng)
